@@ -354,6 +354,15 @@ def dCreate (j : Json) : D CreateD := do
          asSelect := ← jOpt dQuery (fld j "as_select") }
 
 
+
+def dSCall (j : Json) : D B.SCall := do
+  match (← (fld j "m").getStr?) with
+  | "orderby" => pure (.orderby (← dArgs j "args") (← jOptOrd (fld j "order")))
+  | "limit" => pure (.limit (← fNat j "n"))
+  | "offset" => pure (.offset (← fNat j "n"))
+  | "op" => pure (.op (← fStr j "name") (← dQuery (fld j "other")))
+  | s => throw s!"set-operation call {s}"
+
 /-! DDL builder calls (`DDLBuilder.lean`) -/
 def dColArg (j : Json) : D DDLB.ColArg := do
   match (← (fld j "k").getStr?) with
